@@ -12,7 +12,7 @@ from .par_common import V
 
 PROP = "C16"
 LEVEL = "exploration"
-TIMEOUT_S = 240.0
+TIMEOUT_S = 600.0
 RULE = ("one run = seeded configuration (return_as generator / generator_unordered; flavours T, L, G, G-multi) x "
         "consumer script (next k / sleep / stall-all-workers probe, then exhaust, close, drop, drop from another "
         "thread, or an overlapping call) x reuse call x seeded schedule; distinct = digest of (thread role, event "
